@@ -15,6 +15,7 @@ from . import c03_textparse as CP
 from .core import mix32
 
 IMEM = 0x100000
+NUM_TEMPS = 14            # TEMP0..TEMP13 of the Python register file (emulator.NUM_TEMP_REGISTERS)
 _LEGAL_B2: Dict[int, List[int]] = {}
 
 
@@ -203,6 +204,39 @@ def choose_pointers(st: S.Stream, mn: str, ops: List[Tuple[Any, ...]], regs: Dic
     return best[0], best[1], best[2], labels
 
 
+# Iteration counts of the 'bigcount' grid: the counter I is 16 bits wide, so every count up to FFFFh is inside the
+# quantifier ("the range implied by I", "all iteration counts of at least one").  Boundary values sit around every
+# power of two from 2^8 (the internal range starts to cover all 256 bytes) to 2^16 - 1 -- in particular around 8000h
+# where the counter's top bit is set -- the rest is drawn log-uniformly (one octave 2^e..2^(e+1)-1, e in 8..15, then
+# uniform inside it).
+BIG_COUNTS = (0x00FF, 0x0100, 0x0101, 0x0FFF, 0x1000, 0x1001, 0x1FFF, 0x2000, 0x2001, 0x3FFF, 0x4000, 0x4001,
+              0x7FFF, 0x8000, 0x8001, 0xBFFF, 0xC000, 0xFFFE, 0xFFFF)
+
+
+def big_count(st: S.Stream) -> Tuple[int, str]:
+    if st.chance(1, 3):
+        v = st.choice(BIG_COUNTS)
+        return v, "count:boundary"
+    e = 8 + st.below(8)
+    return (1 << e) | st.below(1 << e), f"count:2^{e}.."
+
+
+def temp_junk(st: S.Stream) -> int:
+    """A value for one of the lifter's scratch registers TEMP0..TEMP13 (24 bits wide in the Python register file)."""
+    k = st.below(8)
+    if k == 0:
+        return 0
+    if k == 1:
+        return 0xFFFFFF
+    if k == 2:
+        return st.choice((0x01, 0x80, 0xFF, 0x100, 0xFFFF, 0x10000, 0xFFFFF, 0x100000))
+    if k == 3:
+        return 1 + st.below(0xFF)
+    if k == 4:
+        return st.u32() & 0xFFFFF
+    return st.u32() & 0xFFFFFF
+
+
 def bcd_byte(st: S.Stream) -> int:
     if st.chance(1, 6):
         return st.choice((0x00, 0x99, 0x09, 0x90, 0x50, 0x49, 0x01))
@@ -214,7 +248,12 @@ def make_case(st: S.Stream, code: bytes, imax: int, pc: Optional[int] = None, fo
     """(case, labels, mnemonic, parsed operands) or None if the text cannot be parsed (counted by the caller).
     follow: bytes of the instruction placed right after the one under test (then NOPs).
     focus 'blockwrap': I >= 2 and an internal block that crosses the end of internal memory;
-    focus 'ptr-edge': the [r3++] / [--r3] pointer sits where the access just fits below 100000h / reaches 00000h."""
+    focus 'ptr-edge': the [r3++] / [--r3] pointer sits where the access just fits below 100000h / reaches 00000h;
+    focus 'bigcount': I is a large iteration count (big_count), the internal block wraps, 1/4 of the external
+    blocks end exactly at FFFFF / start exactly at 00000.
+    In half of all cases the lifter's scratch registers TEMP0..TEMP13 hold generated junk at instruction entry (they
+    are part of the Python register file and keep whatever earlier instructions left in them; the documented result is
+    a function of the architectural inputs only)."""
     r = TP.tokens(code + G.NOP_PAD)
     if r is None:
         return None
@@ -229,6 +268,24 @@ def make_case(st: S.Stream, code: bytes, imax: int, pc: Optional[int] = None, fo
         regs["I"] = st.below(4 * imax + 1)   # a prefixed WAIT runs its IL loop I times (no fast path): keep it short
     if focus == "blockwrap" and regs["I"] < 2:
         regs["I"] = 2 + st.below(23)
+    if focus == "bigcount":
+        regs["I"], lab_i = big_count(st)
+        labels[:] = [x for x in labels if not x.startswith("I:")] + ["I:big", lab_i]
+        n = regs["I"]
+        for o in ops:
+            if o[0] != "ereg" or o[1] not in ("X", "Y", "U", "S") or not st.chance(1, 4):
+                continue
+            # the external block just fits: its last byte is FFFFF (FFFFE for [r3++]: the pointer ends at FFFFF)
+            # resp. its lowest byte is 00000
+            if o[2] == "predec":
+                regs[o[1]] = n
+                labels.append("block:starts-at-00000")
+            elif o[2] == "postinc":
+                regs[o[1]] = 0xFFFFF - n
+                labels.append("block:ends-at-FFFFE")
+            elif o[2] == "simple":
+                regs[o[1]] = 0x100000 - n
+                labels.append("block:ends-at-FFFFF")
     if focus == "ptr-edge":
         for o in ops:
             if o[0] == "ereg" and o[2] == "postinc":
@@ -237,7 +294,7 @@ def make_case(st: S.Stream, code: bytes, imax: int, pc: Optional[int] = None, fo
             elif o[0] == "ereg" and o[2] == "predec":
                 regs[o[1]] = st.choice((0x00001, 0x00002, 0x00003))     # a 1/2/3-byte access starts exactly at 00000
                 labels.append("ptr:edge-bottom")
-    bp, px, py, lb = choose_pointers(st, mn, ops, regs, force_wrap=(focus == "blockwrap"))
+    bp, px, py, lb = choose_pointers(st, mn, ops, regs, force_wrap=(focus in ("blockwrap", "bigcount")))
     labels += lb
     mem = [m for m in case["mem"] if m[0] not in (IMEM + 0xEC, IMEM + 0xED, IMEM + 0xEE)]
     mem += [[IMEM + 0xEC, bp], [IMEM + 0xED, px], [IMEM + 0xEE, py]]
@@ -282,4 +339,12 @@ def make_case(st: S.Stream, code: bytes, imax: int, pc: Optional[int] = None, fo
         labels.append("chain:pattern")
     mem += [[a, v] for a, v in sorted(over.items())]
     case["mem"] = mem
+    # lifter scratch registers at instruction entry: generated junk in half of the cases (drawn last: the rest of the
+    # case is the same function of the stream as before)
+    if st.chance(1, 2):
+        for i in range(NUM_TEMPS):
+            regs[f"TEMP{i}"] = temp_junk(st)
+        labels.append("temps:junk")
+    else:
+        labels.append("temps:clear")
     return case, labels, mn, ops
